@@ -17,10 +17,11 @@ LEVEL = "exploration"
 RULE = (
     "two modes. Remote (1/3 of the runs): 1..2 ScheduleSteps with 1..8 jobs each on a shell-based remote deployment "
     "with 2..3 locations (SimShellConnector: real sh per location in a private mount namespace), every job allocated "
-    "on 1..L locations, optionally fixed directories for one step, optionally the k-th mkdir on a non-first location "
-    "fails. Local: scatter/gather workflows with 2..16 concurrent jobs per step (plus pipelines and diamonds) on the real "
+    "on 1..L locations, optionally fixed directories for one step (a separate tree, or the target working directory "
+    "itself, i.e. an ancestor of the other jobs' directories, as the CWL translator binds its injector/collector "
+    "steps), the steps fed at seed-chosen instants, optionally the k-th mkdir on a non-first location fails. Local: scatter/gather workflows with 2..16 concurrent jobs per step (plus pipelines and diamonds) on the real "
     "LocalConnector with per-run scratch work directories; optionally the binding fixes the input/output/tmp "
-    "directory of one step; optional schedule-phase failures (directory creation fails) recovered by the rollback "
+    "directory of one step (separate tree or the working directory itself); optional schedule-phase failures (directory creation fails) recovered by the rollback "
     "manager; seeded latencies for every database, scheduler and filesystem step. Oracle evaluated at the instant "
     "every JobToken is put on a job port (port observer): the three directories exist on the allocated location, "
     "the data manager reports each as registered and available there, and they differ from the directories of "
@@ -58,7 +59,10 @@ def run_remote(sim, params):
     njobs = (1, 2, 3, 5, 8)[t.draw(5, "remote.njobs")]
     fixed_step = t.draw(nsteps + 2, "remote.fixed")  # index of the step whose dirs are fixed, or none
     fault_at = (None, None, None, 1, 2, 4, 7)[t.draw(7, "remote.mkdir.fault")]
-    info = {"mode": "remote", "locations": nloc, "locations_per_job": per_job, "steps": nsteps, "jobs": njobs,
+    # the binding fixes the directories either to a separate tree or to the target's working directory itself (what the
+    # CWL translator does for its injector/collector schedule steps): an ancestor of every other job's directories
+    fixed_is_workdir = bool(t.draw(2, "remote.fixed.workdir"))
+    info = {"mode": "remote", "fixed_is_workdir": fixed_is_workdir, "locations": nloc, "locations_per_job": per_job, "steps": nsteps, "jobs": njobs,
             "fixed_step": fixed_step if fixed_step < nsteps else None, "mkdir_fails_at": fault_at}
     problems = []
     seen = {}
@@ -93,7 +97,9 @@ def run_remote(sim, params):
             binding = BindingConfig(targets=[Target(deployment=cfg, locations=per_job, workdir=workdir)])
             kw = {}
             is_fixed = si == fixed_step
-            if is_fixed:
+            if is_fixed and fixed_is_workdir:
+                kw = {"input_directory": workdir, "output_directory": workdir, "tmp_directory": workdir}
+            elif is_fixed:
                 kw = {"input_directory": os.path.join(vroot, "fixed", "in"), "output_directory": os.path.join(vroot, "fixed", "out"),
                       "tmp_directory": os.path.join(vroot, "fixed", "tmp")}
             st = wf.create_step(ScheduleStep, name=f"/S{si}/__schedule__", job_prefix=f"/S{si}", connector_ports={"rem": deploy.get_output_port()},
@@ -103,12 +109,17 @@ def run_remote(sim, params):
             ports.append(p)
             _hook(st.get_output_port(), ctx, conn, is_fixed)
         await wf.save(ctx.database)
-        for p in ports:
+        async def feed(si, p):
+            # the steps receive their inputs at seed-chosen instants: which step schedules first is part of the schedule
+            await sim.io("feed", f"S{si}")
             for i in range(njobs):
                 p.put(Token(value=i, tag=f"0.{i}"))
             p.put(TerminationToken())
+
+        feeders = [asyncio.create_task(feed(si, p), name=f"feed{si}") for si, p in enumerate(ports)]
         try:
             await StreamFlowExecutor(wf).run()
+            await asyncio.gather(*feeders)
             return "ok"
         except WorkflowExecutionException:
             return "raised"
@@ -172,8 +183,10 @@ def run(sim, params):
     else:
         shape = {"kind": "diamond"}
     fixed_step = None
+    fixed_is_workdir = False
     if t.draw(3, "fixed.dirs") == 2:
         fixed_step = ("/B0", "/A0", "/A")[t.draw(3, "fixed.which")]
+        fixed_is_workdir = bool(t.draw(2, "fixed.workdir"))
     faults = {}
     if t.draw(3, "mkdir.fault") == 2:
         jobs = sorted(S.jobs_of(shape))
@@ -189,9 +202,13 @@ def run(sim, params):
             if isinstance(st, ScheduleStep):
                 if fixed_step and st.job_prefix == fixed_step:
                     base = os.path.join(sim.scratch, "fixed")
-                    st.input_directory = os.path.join(base, "in")
-                    st.output_directory = os.path.join(base, "out")
-                    st.tmp_directory = os.path.join(base, "tmp")
+                    if fixed_is_workdir:
+                        # the target's working directory itself: an ancestor of the other jobs' directories
+                        st.input_directory = st.output_directory = st.tmp_directory = os.path.join(sim.scratch, "wd")
+                    else:
+                        st.input_directory = os.path.join(base, "in")
+                        st.output_directory = os.path.join(base, "out")
+                        st.tmp_directory = os.path.join(base, "tmp")
                     fixed[st.job_prefix] = True
                 port = st.get_output_port()
                 _hook(port, ctx, fixed.get(st.job_prefix, False))
@@ -224,7 +241,7 @@ def run(sim, params):
         port.put = put
 
     res = S.execute(sim, shape, faults, max_retries=8, check_dirs=observe)
-    d = S.desc(shape, faults) + f" fixed={fixed_step}"
+    d = S.desc(shape, faults) + f" fixed={fixed_step}{' (the target workdir)' if fixed_is_workdir else ''}"
     if problems:
         k, msg = problems[0]
         raise Violation(k, f"{msg}; {d}", signature=k)
